@@ -473,10 +473,6 @@ func (fd *Client) getItemCollectionMetrics() map[string][]types.ItemCollectionMe
 
 // BatchWriteItem mock response for dynamodb
 func (fd *Client) BatchWriteItem(ctx context.Context, input *dynamodb.BatchWriteItemInput, opts ...func(*dynamodb.Options)) (*dynamodb.BatchWriteItemOutput, error) {
-	if err := fd.failureErr(); err != nil {
-		return nil, err
-	}
-
 	if err := validateBatchWriteItemInput(input); err != nil {
 		return &dynamodb.BatchWriteItemOutput{}, err
 	}
